@@ -27,3 +27,60 @@ func WithDeadline(parent Context, d time.Time) (Context, CancelFunc) {
 	return vrt.WithDeadline("", parent, d)
 }
 func WithValue(parent Context, k, v interface{}) Context { return vrt.WithValue(parent, k, v) }
+
+// CancelCauseFunc mirrors context.CancelCauseFunc.
+type CancelCauseFunc func(cause error)
+
+// WithCancelCause is context.WithCancelCause (the cause is returned by Cause).
+func WithCancelCause(parent Context) (Context, CancelCauseFunc) {
+	ctx, cancel := vrt.WithCancel("", parent)
+	cc := &causeCtx{Context: ctx}
+	return cc, func(cause error) {
+		if cc.cause == nil {
+			cc.cause = cause
+		}
+		cancel()
+	}
+}
+
+type causeCtx struct {
+	Context
+	cause error
+}
+
+// Cause is context.Cause.
+func Cause(c Context) error {
+	if cc, ok := c.(*causeCtx); ok && cc.cause != nil {
+		return cc.cause
+	}
+	return c.Err()
+}
+
+// WithoutCancel is context.WithoutCancel.
+func WithoutCancel(parent Context) Context { return withoutCancel{parent} }
+
+type withoutCancel struct{ p Context }
+
+func (withoutCancel) Deadline() (time.Time, bool)       { return time.Time{}, false }
+func (withoutCancel) Done() *vrt.Chan[struct{}]         { return nil }
+func (withoutCancel) Err() error                        { return nil }
+func (w withoutCancel) Value(k interface{}) interface{} { return w.p.Value(k) }
+
+// AfterFunc is context.AfterFunc.
+func AfterFunc(ctx Context, f func()) (stop func() bool) {
+	stopped := vrt.Make[struct{}]("afterfunc.stop", 0)
+	done := false
+	vrt.Go("context.AfterFunc", func() {
+		if vrt.Select("context.AfterFunc", false, ctx.Done().RecvCase(), stopped.RecvCase()) == 0 {
+			done = true
+			f()
+		}
+	})
+	return func() bool {
+		if done {
+			return false
+		}
+		vrt.Select("context.AfterFunc.stop", true, stopped.SendCase(struct{}{}))
+		return !done
+	}
+}
